@@ -4,6 +4,17 @@ From Coq Require Import List Arith NArith Bool.
 Import ListNotations.
 Require Import FV.Base.Util FV.Gen.C07 FV.C07.Model.
 
+(* compact literals: a byte string is written as one hexadecimal number, a leading 1 marks the start;
+   B reads 8 bits per element, U 24 bits per element (code points) *)
+Fixpoint unpk (top : N) (p : positive) (w : N) (cur : N) (acc : list N) : list N :=
+  match p with
+  | xH => acc
+  | xO q => if N.eqb w top then unpk top q 1%N 0%N (cur :: acc) else unpk top q (N.double w) cur acc
+  | xI q => if N.eqb w top then unpk top q 1%N 0%N ((cur + w)%N :: acc) else unpk top q (N.double w) (cur + w)%N acc
+  end.
+Definition B (n : N) : bytes := match n with N0 => [] | Npos p => unpk 128%N p 1%N 0%N [] end.
+Definition U (n : N) : str := match n with N0 => [] | Npos p => unpk 8388608%N p 1%N 0%N [] end.
+
 Definition ostr_eqb := opt_eqb str_eqb.
 Definition msg_eqb (a b : msg) : bool :=
   let '(a1, s1, d1) := a in let '(a2, s2, d2) := b in str_eqb a1 a2 && ostr_eqb s1 s2 && ostr_eqb d1 d2.
